@@ -191,10 +191,14 @@ TEXT = {
                       "max_path always returns such a walk with no node twice (C03_maxPath_walk, both arms). C03_edges_symmetric: in every graph "
                       "satisfying the node-level invariant GInv (terminal k-mers identify node and side, extensions reciprocal, a palindromic "
                       "single-k-mer node recording them from either strand) every reported edge is reported back from the facing side, the two "
-                      "sides of such a node counting as one; GInv is decidable (ginvOK, proved sound) and evaluated on every pipeline graph of "
-                      "the crate. Equality of the adjacency set with the (K+1)-mers of the reads is an executable predicate; max_path_beam is not modelled.",
+                      "sides of such a node counting as one; GInv is PROVED for every graph compress_kmers builds from a well-formed table that "
+                      "is reciprocal towards every present neighbour (C03_ginv_of_compress: node extension bytes are those of the k-mers at the two "
+                      "ports where the walks stopped, complemented when the k-mer lies reverse-complemented in the node; orientation parity of an "
+                      "edge is forced by the strings; a palindromic k-mer forms a node by itself and may record from either strand), hence for "
+                      "every read set (C03_edges_symmetric_from_reads); GInv is also decidable (ginvOK, proved sound) and evaluated on every "
+                      "pipeline graph of the crate. Equality of the adjacency set with the (K+1)-mers of the reads is an executable predicate; max_path_beam is not modelled.",
         "design_ref": "DESIGN.md section 6, C03",
-        "level_note": COMMON_NOTE + "Partial: GInv is assumed for symmetry (checked executably on the crate's graphs, not yet derived from C01); adjacency = (K+1)-mers by execution.",
+        "level_note": COMMON_NOTE + "Partial: adjacency = (K+1)-mers by execution; GInv after re-compression by execution.",
         "technique": "Lean 4 proof (case analysis of link resolution, bit-level exactness of pruning, overlap algebra of walks, invariant of the greedy best-path loop) + differential correspondence with executable predicates",
     },
     "C18": {
